@@ -89,6 +89,24 @@ CLAIMS = {
          "DESIGN.md §4 C10"),
 }
 
+# technique additions of the round-3 rules (appended to the technique text)
+ROUND3 = {
+ "C01": "nondeterminism-source census extended to hash/maphash, map-order APIs (maps.Keys, sync.Map.Range, reflect map iteration) and address-to-integer conversions",
+ "C10": "nondeterminism-source census extended to hash/maphash and map-order APIs",
+ "C02": "must-ask-the-policy path rule for integer constants of symbolic expressions (every path of the constant node's renderer calls the renamer; the renamer answers from ShouldAbstract with a fixed placeholder); polarity clauses of the trip-count derivation",
+ "C03": "every-path rule for the loop tag of recurrences; exact-rendering rule for constant values; census of reordered sequences by provenance (operand lists of SSA constructs vs reviewed table)",
+ "C04": "all structural conditions of C03 re-run under C04 (fingerprint short-circuit)",
+ "C05": "provenance of generated signature IDs (per-iteration value and database-state/content/random value, followed through helper parameters)",
+ "C08": "guard-edge rule for replacements of the configured threshold (store and phi form): only under a test that found it outside (0,1]",
+ "C09": "function-enumeration rules shared with C16; flow rule for the operation lists between collection and report",
+ "C12": "census of value kinds opened by the summary builder; truncated-division-only rule for big-integer arithmetic in the loop package",
+ "C14": "every-request-reaches-the-manager path rule over the CLI adapter's mount collector (excuses: empty, unresolvable, exact duplicate)",
+ "C16": "guard-shape census of the member/type/method enumeration (only kind, nil, emptiness and loop tests may keep a member from the enumerator)",
+ "C17": "bounded-read rule for every whole-content read in production code",
+ "C18": "error-propagation path rule at every storage call of the commands (no success-capable return reachable from the error edge); success-only-after-record-write and every-batch-element-written path rules in the embedded store",
+ "C19": "result-carries-function rule shared with C16",
+}
+
 PENDING_REASON = "static check for this property is not armed yet in this revision of the machinery (see DESIGN.md §4 for the planned structural clauses); not claimed until its rules run silent on the tree and fire on their mutants"
 
 def main():
@@ -106,7 +124,7 @@ def main():
                 "engine": "sfwverif",
                 "level_claimed": {"category": "other", "text": text, "design_ref": ref},
                 "level_note": note,
-                "technique": "static analysis: " + tech,
+                "technique": "static analysis: " + tech + ("; " + ROUND3[pid] if pid in ROUND3 else ""),
             })
         else:
             na.append({"property_id": pid, "reason": NA.get(pid, PENDING_REASON)})
